@@ -290,3 +290,43 @@ func VerifC17ConcurrentFirstUse() {
 	}
 	verifrt.Reach("c17-concurrent")
 }
+
+// vValidNameByte / vValidKeyByte: the bytes Prometheus allows in metric names ([a-zA-Z0-9_:])
+// and label names ([a-zA-Z0-9_]) - restricted to a few representatives plus the two that matter
+// for key building.
+func vValidNameByte(b byte) bool {
+	return verifrt.Or(verifrt.Or(verifrt.And(b >= 'a', b <= 'z'), verifrt.And(b >= 'A', b <= 'Z')),
+		verifrt.Or(verifrt.Or(b == '_', b == ':'), verifrt.And(b >= '0', b <= '9')))
+}
+func vValidKeyByte(b byte) bool {
+	return verifrt.And(vValidNameByte(b), b != ':')
+}
+
+// VerifC17IDInjective: the reporter's by-name cache id is injective on Prometheus-valid names
+// and tag-key sets: two first uses with different (name, keys) never share a cache slot.
+func VerifC17IDInjective() {
+	shapes := [][2]int{{1, 0}, {3, 0}, {1, 1}, {2, 1}, {3, 1}} // (name length, number of 1-byte keys)
+	mk := func(tag string) (string, []string) {
+		sh := shapes[verifrt.Choose("shape-"+tag, len(shapes))]
+		name := verifrt.String("name-"+tag, sh[0])
+		for i := 0; i < len(name); i++ {
+			verifrt.Assume(vValidNameByte(name[i]))
+		}
+		var keys []string
+		if sh[1] == 1 {
+			k := verifrt.String("key-"+tag, 1)
+			verifrt.Assume(vValidKeyByte(k[0]))
+			keys = []string{k}
+		}
+		return name, keys
+	}
+	n1, k1 := mk("a")
+	n2, k2 := mk("b")
+	same := verifrt.And(verifrt.EqStr(n1, n2), len(k1) == len(k2))
+	if len(k1) == 1 && len(k2) == 1 {
+		same = verifrt.And(same, verifrt.EqStr(k1[0], k2[0]))
+	}
+	id1, id2 := canonicalMetricID(n1, k1), canonicalMetricID(n2, k2)
+	verifrt.Assert("c17.id.different-name-or-keys-different-cache-slot", verifrt.Or(same, verifrt.Not(verifrt.EqStr(string(id1), string(id2)))))
+	verifrt.Reach("c17-id")
+}
